@@ -316,6 +316,56 @@ fn serde_structural(api: &Api, kind: Kind, seed: u64, cx: &mut Cx) {
         Err(_) => return,
     };
     cx.context_done();
+    // every member of every object removed (a field that silently takes a default when absent)
+    {
+        fn object_members(v: &serde_json::Value, cur: &mut Vec<String>, out: &mut Vec<(Vec<String>, String)>) {
+            match v {
+                serde_json::Value::Array(a) => {
+                    for (i, x) in a.iter().enumerate() {
+                        cur.push(i.to_string());
+                        object_members(x, cur, out);
+                        cur.pop();
+                    }
+                }
+                serde_json::Value::Object(m) => {
+                    for (k, x) in m {
+                        out.push((cur.clone(), k.clone()));
+                        cur.push(k.clone());
+                        object_members(x, cur, out);
+                        cur.pop();
+                    }
+                }
+                _ => {}
+            }
+        }
+        let mut members = vec![];
+        object_members(&root, &mut vec![], &mut members);
+        for (path, key) in members {
+            let mut v = root.clone();
+            if let serde_json::Value::Object(m) = at_path(&mut v, &path) {
+                m.remove(&key);
+            }
+            let text = serde_json::to_vec(&v).unwrap();
+            cx.begin_case(json!({"decoder": kind.name(), "codec": "Json", "object": path.join("/"), "mutation": format!("remove member {}", key)}));
+            if !cx.state(&(kind, "json", &text)) {
+                continue;
+            }
+            cx.edges += 1;
+            cx.path();
+            match api.recode(kind, &Blob::new(Codec::Json, text), Codec::Json) {
+                Err(_) => cx.outcome("serde-rejected"),
+                Ok(back) => {
+                    let same = serde_json::from_slice::<serde_json::Value>(&back.bytes).map(|b| b == v).unwrap_or(false);
+                    if same {
+                        cx.outcome("serde-accepted-canonical");
+                    } else {
+                        cx.outcome("SERDE-ACCEPTED-NONCANONICAL");
+                        cx.violate(&format!("{}/serde-json/missing-member", kind.name()), format!("the stored JSON form of {} without its member {}/{} is accepted and re-encodes differently", kind.name(), path.join("/"), key));
+                    }
+                }
+            }
+        }
+    }
     let mut paths = vec![];
     array_paths(&root, &mut vec![], &mut paths);
     for (path, len) in paths {
@@ -383,7 +433,7 @@ pub fn run(tier: Tier, seed: u64) -> i32 {
         rule: "explicit-state enumeration of the decoder mutation LTS: roots = honest encodings (and encodings with special valid field values) of all 11 decoders x 20 suites; every action of the alphabet is applied to every root; a state is a distinct (decoder, byte string); oracle: decode ok => re-encode identical".into(),
         bounds: json!({"suites": 20, "decoders": 11, "depth": if tier.thorough() {2} else {1},
             "setbyte": if tier.thorough() {"every offset x all 255 other values"} else {"all 256 values of each element field's leading byte; every other offset x {^0x01, ^0x80}"},
-            "truncate": "every length 0..len-1", "extend": "1..64 bytes x {zeros, 0xAA, copy of head}", "insert_delete": "one byte inserted at every offset (6 values) / deleted at every offset", "first_byte_x_length": "first byte of every field in {00,01,02,03,04,ff} x {extend by 1, 2, truncate by 1}", "serde_json_structural": "every array of the stored JSON form: each element removed, first/last duplicated, one appended", "typed_equality": "every accepted different encoding must be != under the library's own ==", "alias": "x+p, other SEC1 tags, s+p, bit 255, p-s, s+n, unclamped",
+            "truncate": "every length 0..len-1", "extend": "1..64 bytes x {zeros, 0xAA, copy of head}", "insert_delete": "one byte inserted at every offset (6 values) / deleted at every offset", "first_byte_x_length": "first byte of every field in {00,01,02,03,04,ff} x {extend by 1, 2, truncate by 1}", "serde_json_structural": "every array of the stored JSON form: each element removed, first/last duplicated, one appended; every object member removed", "typed_equality": "every accepted different encoding must be != under the library's own ==", "alias": "x+p, other SEC1 tags, s+p, bit 255, p-s, s+n, unclamped",
             "depth2": if tier.thorough() {"7 tags x every byte of the field x 255 values (honest roots, P-curve element fields)"} else {"-"},
             "roots_per_decoder": if tier.thorough() {"2 honest + special values per element/scalar field"} else {"1 honest + special values per element/scalar field"}}),
         assumptions: vec!["ground truth for special valid points comes from the p256/p384/p521/curve25519-dalek crates".into(), "the property's 'one encoding of one fixed length' is about the native encodings; of the serde forms only this is demanded: a stored JSON form with one element sequence shortened or lengthened is not accepted as a different object".into()],
